@@ -126,6 +126,27 @@ pub fn c05_c06(d: &Digest, s: usize, out: &mut Vec<Violation>) {
             break;
         }
     }
+    // a drop policy discards only when the queue is full: every discard is preceded, inside the
+    // same dispatch call, by the queue refusing the new item as full
+    {
+        let fs0 = sd.first_shutdown_inv.unwrap_or(usize::MAX);
+        for &ci in &sd.dispatches {
+            let c = &d.calls[ci];
+            let Some(ret) = c.ret else { continue };
+            if ret >= fs0 {
+                continue;
+            }
+            let saw_full = d.ev[c.inv..ret].iter().any(|e| e.tid == c.tid && matches!(&e.k, K::ChFull { chan } if *chan == dch));
+            let popped = d.ev[c.inv..ret].iter().any(|e| e.tid == c.tid && matches!(&e.k, K::ChRecv { chan, .. } if *chan == dch));
+            let sent = d.ev[c.inv..ret].iter().any(|e| e.tid == c.tid && matches!(&e.k, K::ChSend { chan, .. } if *chan == dch));
+            if let OpK::Dispatch { act, .. } = c.op {
+                if (popped || !sent) && !saw_full {
+                    v(out, "C06", "discarded-while-room", format!("store {s} ({:?}): dispatch of {act} discarded something although the queue never refused the new item as full", sd.model.policy));
+                    break;
+                }
+            }
+        }
+    }
     let Some(xi) = sd.clean_stop else { return };
     let _ = xi;
     if !observable(sd) || sd.model.hole_reducers {
